@@ -145,6 +145,9 @@ def build_dataset(rep, sc, spec, pk=None):
     path = sc.new('ds' + spec.get('tag', ''))
     if spec['writer'] == 'to_parquet':
         ddf.to_parquet(path, compression=spec.get('compression', 'snappy'))
+    elif spec['writer'] == 'plain':
+        # Dask's own writer: a dataset without spatialpandas metadata
+        dd.to_parquet(ddf, path, engine='pyarrow', write_metadata_file=True)
     else:
         write_info = observe_pack(rep, ddf, path, spec, pk)
     files = sorted(f for f in os.listdir(path) if f.endswith('.parquet'))
@@ -159,7 +162,7 @@ def build_dataset(rep, sc, spec, pk=None):
         pieces.append(read_parquet(f))
     ds = {'path': path, 'pieces': pieces, 'geom': [c for c in df.columns if c in ('ga', 'gb')],
           'frame': df, 'spec': spec}
-    if spec['writer'] != 'to_parquet' and write_info is not None and pk is not None:
+    if spec['writer'] == 'pack' and write_info is not None and pk is not None:
         pack_case(rep, ds, write_info, pk)
     return ds
 
@@ -258,6 +261,13 @@ def check_read(rep, datasets, how, geometry, boxes, rb_cases, rb_res, rb_meta, c
                 if pj != ids[j]:
                     rep.violation('partition-order', f'partition {j} does not hold the rows of part file {j}',
                                   {**meta0, 'partition': j, 'rows': pj, 'file_rows': ids[j]})
+            if any(x is None for x in raws):
+                # a dataset without metadata: no partition bounds at all (and bounds= prunes nothing)
+                if r._partition_bounds:
+                    rep.violation('bounds-without-metadata', 'partition bounds reported although a dataset has none',
+                                  {**meta0, 'reported': U.colbounds(r._partition_bounds)})
+                rep.count(f'{how}:no-metadata')
+                continue
             for col in datasets[0]['geom']:
                 rec = U.bbox_rows(r._partition_bounds[col]) if col in r._partition_bounds else None
                 true = [_tb(p[col]) for p in pieces]
@@ -290,6 +300,10 @@ def check_read(rep, datasets, how, geometry, boxes, rb_cases, rb_res, rb_meta, c
                                    'rows': [int(v) for v in p['v'][hit]]})
             if 0 < len(kept) < len(pieces):
                 rep.nontrivial(('prune', how, json.dumps(specs, sort_keys=True), geometry, tuple(box)))
+
+
+def _sample(rng, l, k):
+    return rng.sample(l, min(k, len(l)))
 
 
 def _norm(box):
@@ -499,10 +513,10 @@ def run(rep):
                          for p in ds['pieces']]
                 quick = tier == 'quick'
                 b0 = boxes_for(rep.rng, rows0, nbox)
-                b0 = b0[:5] + rep.rng.sample(b0[5:], 7 if quick else len(b0) - 5)
+                b0 = b0[:5] + _sample(rep.rng, b0[5:], 7 if quick else len(b0) - 5)
                 check_read(rep, [ds], 'single', None, b0, *acc)
                 check_read(rep, [ds], 'single', other,
-                           rep.rng.sample(boxes_for(rep.rng, rows1, nbox), 4 if quick else 16), *acc)
+                           _sample(rep.rng, boxes_for(rep.rng, rows1, nbox), 4 if quick else 16), *acc)
                 # two datasets by list / glob every third dataset
                 if si % 3 == 0:
                     spec2 = {**spec, 'seed': spec['seed'] + 1, 'tag': 'b', 'voffset': 100000,
@@ -511,10 +525,19 @@ def run(rep):
                     ds2 = build_dataset(rep, s2, spec2)
                     if ds2 is not None:
                         # glob expansion is alphabetical: dsa* before dsb*
-                        b2 = rep.rng.sample(boxes_for(rep.rng, rows0, nbox), 3 if quick else 8)
+                        b2 = _sample(rep.rng, boxes_for(rep.rng, rows0, nbox), 3 if quick else 8)
                         check_read(rep, [ds, ds2], 'list', rep.rng.choice([None, other]), b2, *acc)
                         check_read(rep, [ds, ds2], 'glob', None, b2[:2], *acc)
                         check_read(rep, [ds2, ds], 'list', None, b2[:1], *acc)
+                if si % 6 == 1:
+                    # ... and a dataset written by Dask's own writer (no spatialpandas metadata) next to it
+                    spec3 = {**spec, 'seed': spec['seed'] + 2, 'tag': 'c', 'voffset': 200000, 'writer': 'plain',
+                             'npartitions': 2, 'missing_head': 0, 'nrows': 6}
+                    ds3 = build_dataset(rep, s2, spec3)
+                    if ds3 is not None:
+                        b3 = [(100, 100, 101, 101), (0, 0, 1, 1)]
+                        check_read(rep, [ds, ds3], 'list', None, b3, *acc)
+                        check_read(rep, [ds3], 'single', None, b3[:1], *acc)
     # model comparisons
     bad = C.coq_mismatches(IMPORTS, RB_FN, RB_CASE, RB_RES, rb[0], rb[1], shard=40)
     seen = set()
